@@ -110,6 +110,30 @@ def save_restore(ctx):
                 ctx.check(not late, late[0] if late else x, "%s.__init__ validates before it installs (nothing raises after the parent constructor)" % cq,
                           "%s.__init__ can raise after the parent constructor installed the configuration: the with block is never entered, __exit__ never runs, and the rejected settings stay "
                           "active in the thread (and hide those of an enclosing context)" % cq)
+    # in-package users: a context that is created must be left on every path - `with`, or unregister() in a `finally`
+    for rel_, mod_ in ctx.repo.modules.items():
+        if "externals/" in rel_:
+            continue
+        for q_, fn_ in mod_.funcs.items():
+            for c_ in calls_in(fn_):
+                if call_name(c_) not in ("parallel_config", "parallel_backend"):
+                    continue
+                p_ = parent(c_)
+                if isinstance(p_, ast.withitem):
+                    ctx.ok(c_, "%s::%s enters the context with `with` (restored on every exit)" % (rel_, q_))
+                    continue
+                ok_ = False
+                if isinstance(p_, ast.Assign) and len(p_.targets) == 1 and isinstance(p_.targets[0], ast.Name):
+                    v_ = p_.targets[0].id
+                    for t_ in nodes_of_type(fn_, ast.Try):
+                        if any(isinstance(x, ast.Call) and call_name(x) in (v_ + ".unregister", v_ + ".__exit__") for s_ in t_.finalbody for x in ast.walk(s_)):
+                            ok_ = True
+                    if any(isinstance(w, ast.With) and any(dotted(i.context_expr) == v_ for i in w.items) for w in nodes_of_type(fn_, ast.With)):
+                        ok_ = True
+                if isinstance(p_, ast.Return):
+                    ok_ = True
+                ctx.check(ok_, c_, "the context created in %s is left on every path" % q_,
+                          "%s::%s installs a parallel_config without `with` / `finally`: when the code in between raises, the settings stay installed in that thread for good" % (rel_, q_))
     ex = F(ctx, "parallel_config.__exit__")
     ge = cfg_of(ex)
     un = [c for c in calls_in(ex) if call_name(c) == "self.unregister"]
